@@ -6,6 +6,7 @@ run the REAL jade code in the virtual cluster under generated scenarios / schedu
 A failing oracle or monitor is a concrete failing input (scenario + schedule) -> VIOLATION;
 a rejected trace without a failing oracle -> tie broken (no-failing-input-found)."""
 import json
+import re
 import multiprocessing as mp
 import os
 import random
@@ -159,7 +160,9 @@ def run_cases(cases, procs=None):
     if len(cases) <= 2 or procs <= 1:
         return [_run_case(c) for c in cases]
     ctx = mp.get_context("fork")
-    with ctx.Pool(min(procs, len(cases)), maxtasksperchild=40) as pool:
+    # no maxtasksperchild: replacing a worker means fork() from the pool's handler thread while other threads of
+    # the parent may hold locks (logging, import) - the child can then deadlock and the whole check stalls
+    with ctx.Pool(min(procs, len(cases))) as pool:
         return pool.map(_run_case, cases, chunksize=max(1, len(cases) // (procs * 4)))
 
 
@@ -461,6 +464,45 @@ def system_phase(chk, pid, modes, n_quick, n_thorough, also=(), directed=()):
         chk.oblige(f"all {n_ff} fault-free acyclic impl traces satisfy SystemFault.acyclicb, nodes_okb and fault_free - every hypothesis of c03_complete_when_checked, evaluated by coqc",
                    bad_ff == 0 and bad_concl == 0, f"{bad_ff} not fault-free in the model's sense, {bad_concl} contradict the conclusion")
         chk.notes.setdefault("input_distribution", {})["fault_free_traces"] = n_ff
+    if pid == "C03":
+        # the statement of C03 itself: the final results of a fault-free run ARE the reference evaluation
+        # (SystemReference.reference, an executable Coq function of dependencies, flags and exit codes; theorem
+        # c03_final_results_are_the_reference).  coqc evaluates it for every fault-free acyclic scenario and the results
+        # impl wrote to results.json are compared with it.
+        todo = [(seed, mode, sc, plan, r) for (seed, mode, sc, plan, r), a in zip(results, acc)
+                if not plan.get("local") and not r.get("error") and a["accepted"] and fault_free(plan, r) and acyclic(sc)
+                and r["status"].get("complete") and r.get("final")]
+        if todo:
+            body = [sysrun.IMPORTS.replace("SystemFault.", "SystemFault SystemComplete SystemOutcome SystemAcyclic SystemReference."),
+                    "Import ListNotations.", "Open Scope N_scope.", "Set Printing Depth 1000000.", "Set Printing Width 1000000."]
+            encs = [sysrun.Enc(sc) for _, _, sc, _, _ in todo]
+            for n, e in enumerate(encs):
+                body.append(f"Definition rsc{n} : scenario := {e.scenario()}.")
+            body.append("Eval vm_compute in [" + "; ".join(
+                f"map (fun rw => (rw_job rw, rw_rc rw, rw_cancel rw)) (reference rsc{n})" for n in range(len(encs))) + "].")
+            try:
+                out = core.coq_eval("c03_reference", "\n".join(body) + "\n", 600)
+                vals = core.eval_results(out)
+                lists = re.findall(r"\[([^\[\]]*)\]", vals[0].strip()[1:-1]) if vals else []
+                ok_eval = len(lists) == len(todo)
+            except core.BuildError as e:
+                ok_eval, lists = False, []
+                chk.tie_broken("SystemReference.reference could not be evaluated", e.log[-800:])
+            bad_ref = 0
+            if ok_eval:
+                for (seed, mode, sc, plan, r), txt in zip(todo, lists):
+                    want = {}
+                    for m in re.finditer(r"\((\d+)(?:%N)?\s*,\s*\(?(-?\d+)\)?(?:%Z)?\s*,\s*(true|false)\)", txt):
+                        want[sc["jobs"][int(m.group(1))]["name"]] = (int(m.group(2)), "canceled" if m.group(3) == "true" else "finished")
+                    got = {n: (v[0], v[1]) for n, v in r["final"][0].items()}
+                    if got != want or r["final"][1]:
+                        bad_ref += 1
+                        chk.violation("results-differ-from-coq-reference",
+                                      f"[C03] results.json {got} (missing {r['final'][1]}) differs from SystemReference.reference {want}",
+                                      {"seed": seed, "mode": mode, "scenario": sc, "plan": plan, "schedule": r["choices"],
+                                       "oracle": "SystemReference.reference evaluated by coqc", "final": r["final"]})
+            chk.oblige(f"results.json of all {len(todo)} complete fault-free acyclic runs equals SystemReference.reference (coqc vm_compute)",
+                       ok_eval and bad_ref == 0, f"evaluated={ok_eval} differing={bad_ref}")
     chk.notes.setdefault("input_distribution", {})["system"] = dist
     sysrule = ("system cases = generated scenarios (2-8 jobs, random DAG incl. blocked-before-blocker listing, flags, exit codes, "
                "1-3 groups with count/time batching, try-add-blocked, nproc, max-nodes, hooks) run through the REAL jade code in the "
